@@ -941,7 +941,7 @@ package rtcp
 //@     invariant[C01] allocated() <= before(allocated()) + 24*(len(t.RecvDeltas) - before(len(t.RecvDeltas)))
 //@     decreases symbolsToProcess - j
 //@   loop 5
-//@     invariant 0 <= iter() && iter() <= len(t.RecvDeltas) && recvDeltasPos <= totalLength && unchanged(len(t.RecvDeltas)) && unchanged(t.PacketChunks) && unchanged(t.PacketStatusCount) && unchanged(t.Header) && unchanged(t.SenderSSRC) && unchanged(t.MediaSSRC) && unchanged(t.BaseSequenceNumber) && unchanged(t.ReferenceTime) && unchanged(t.FbPktCount)
+//@     invariant 0 <= iter() && iter() <= len(t.RecvDeltas) && 20 <= recvDeltasPos && recvDeltasPos <= totalLength && unchanged(len(t.RecvDeltas)) && unchanged(t.PacketChunks) && unchanged(t.PacketStatusCount) && unchanged(t.Header) && unchanged(t.SenderSSRC) && unchanged(t.MediaSSRC) && unchanged(t.BaseSequenceNumber) && unchanged(t.ReferenceTime) && unchanged(t.FbPktCount)
 //@     invariant[C01,C13] forall k :: 0 <= k && k < len(t.RecvDeltas) ==> t.RecvDeltas[k] != nil && (t.RecvDeltas[k].Type == 1 || t.RecvDeltas[k].Type == 2)
 //@     decreases len(t.RecvDeltas) - iter()
 
@@ -1695,6 +1695,37 @@ package rtcp
 //@   ensures reencodes: err == nil ==> err2 == nil
 //@   ensures accepted: err == nil && err2 == nil && specXRAllAligned(p.Reports, len(p.Reports)) ==> err3 == nil
 //@   ensures same: err == nil && err2 == nil && err3 == nil && specXRAllAligned(p.Reports, len(p.Reports)) ==> q.SenderSSRC == p.SenderSSRC && len(q.Reports) == len(p.Reports) && specXRBlocksEq(p.Reports, q.Reports, len(p.Reports), false)
+
+//@ func lemmaTWCCDecode(raw []byte) (p TransportLayerCC, err error)
+//@   lemma
+//@   trusted
+//@   bounded[C13,C04,C01] genTWCCRaw
+//@   ensures accepts: specTWCCDecode(raw).ok && specTWCCDecode(raw).total < 65536 ==> err == nil
+//@   ensures rejects: err == nil ==> specTWCCDecode(raw).ok
+//@   ensures matches: err == nil ==> specTWCCMatches(raw, p)
+
+//@ func lemmaTWCCChunking(a []byte, b []byte) (p TransportLayerCC, q TransportLayerCC, err error, err2 error)
+//@   lemma
+//@   trusted
+//@   bounded[C13] genTWCCTwoChunkings
+//@   ensures both: err == nil && err2 == nil
+//@   ensures same: err == nil && err2 == nil ==> seqEqU16(specTWCCStatuses(p), specTWCCStatuses(q)) && specTWCCSameDeltas(p, q)
+
+//@ func lemmaRoundTripTWCC(p TransportLayerCC) (q TransportLayerCC, err error, err2 error)
+//@   lemma
+//@   trusted
+//@   bounded[C02,C13] genTWCC
+//@   ensures encodes: err == nil
+//@   ensures decodes: err == nil ==> err2 == nil
+//@   ensures same: err == nil && err2 == nil ==> specTWCCEqual(p, q, true)
+
+//@ func lemmaReencodeTWCC(raw []byte) (p TransportLayerCC, q TransportLayerCC, err error, err2 error, err3 error)
+//@   lemma
+//@   trusted
+//@   bounded[C09] genTWCCRaw
+//@   ensures reencodes: err == nil ==> err2 == nil
+//@   ensures accepted: err == nil && err2 == nil && specTWCCCanonical(raw) ==> err3 == nil
+//@   ensures same: err == nil && err2 == nil && err3 == nil && specTWCCCanonical(raw) ==> specTWCCEqual(p, q, true)
 
 //@ func lemmaReencodeSR(raw []byte) (p SenderReport, q SenderReport, err error, err2 error, err3 error)
 //@   lemma
